@@ -55,6 +55,9 @@ def cstr(v):
 def const_int(v):
     v = canon(v)
     if isinstance(v, Const) and v.bits is not None and v.ty != "bool":
+        w = {"i8": 8, "i16": 16, "i32": 32, "i64": 64, "i128": 128, "isize": 64}.get(v.ty)
+        if w and v.bits >= 1 << (w - 1):
+            return v.bits - (1 << w)
         return v.bits
     if isinstance(v, Const) and v.text:
         m = re.match(r"^(-?\d+)_[iu](8|16|32|64|128|size)$", v.text)
